@@ -60,6 +60,7 @@ struct OpSpec { std::string name; uint64_t key = 0; uint64_t arg = 0; };
 struct Scenario {
     std::string kind;                 // container kind
     uint64_t bc = 8; uint64_t mlf_num = 4, mlf_den = 1;
+    bool has_mlf_bits = false; uint32_t mlf_bits = 0;          // `mlfb <bits>`: the initial load factor as a float bit pattern
     std::map<uint64_t, uint64_t> hash;        // key -> hash (default identity)
     std::vector<OpSpec> pre;                  // executed sequentially before the threads start
     std::vector<std::vector<OpSpec>> progs;
@@ -82,6 +83,7 @@ inline Scenario read_scenario(FILE* f) {
         if (w == "kind") is >> s.kind;
         else if (w == "bc") is >> s.bc;
         else if (w == "mlf") is >> s.mlf_num >> s.mlf_den;
+        else if (w == "mlfb") { is >> s.mlf_bits; s.has_mlf_bits = true; }
         else if (w == "hash") { uint64_t k, h; while (is >> k >> h) s.hash[k] = h; }
         else if (w == "pre") { while (is >> w) s.pre.push_back(parse_op(w)); }
         else if (w == "sched") { int t; while (is >> t) s.sched.push_back(t); }
@@ -109,6 +111,41 @@ struct FairSchedule : verif::Schedule {
         } else t = inner.pick(cur, en, step);
         if (t == last) run++; else { run = 1; last = t; }
         return t;
+    }
+};
+
+// Guided schedule: a list of segments `t*n` (n picks of thread t), `t!` (thread t until it is no longer enabled: finished),
+// `t@m` (thread t until it has completed m operations; the harness bumps ops_done[t]); afterwards lowest enabled thread,
+// non-preemptively.  A segment whose thread is not enabled is skipped.  Used to HOLD one thread at a chosen scheduling
+// point while others run to completion.  The schedule actually taken is reported like any other (plain `replay` re-runs it).
+struct GuideSchedule : verif::Schedule {
+    struct Seg { int tid; char mode; long n; long used = 0; };
+    std::vector<Seg> segs; size_t seg = 0; const std::vector<long>* ops_done = nullptr;
+    bool first_short = false;          // the first `*` segment ended because its thread finished early
+    void reset() { seg = 0; first_short = false; for (auto& g : segs) g.used = 0; }
+    static std::vector<Seg> parse(const char* a) {
+        std::vector<Seg> r; std::stringstream ss(a); std::string tok;
+        while (std::getline(ss, tok, ',')) {
+            if (tok.empty()) continue;
+            size_t p = tok.find_first_of("*!@");
+            if (p == std::string::npos) continue;
+            Seg g; g.tid = atoi(tok.substr(0, p).c_str()); g.mode = tok[p]; g.n = p + 1 < tok.size() ? atol(tok.substr(p + 1).c_str()) : 0;
+            r.push_back(g);
+        }
+        return r;
+    }
+    int pick(int cur, const std::vector<int>& en, size_t) override {
+        while (seg < segs.size()) {
+            Seg& g = segs[seg];
+            bool e = false; for (int t : en) if (t == g.tid) e = true;
+            if (!e) { if (seg == 0 && g.mode == '*' && g.used < g.n) first_short = true; seg++; continue; }
+            if (g.mode == '*') { if (g.used < g.n) { g.used++; return g.tid; } seg++; continue; }
+            if (g.mode == '!') return g.tid;
+            if (g.mode == '@') { if (ops_done && (*ops_done)[g.tid] < g.n) return g.tid; seg++; continue; }
+            seg++;
+        }
+        for (int t : en) if (t == cur) return t;
+        return en[0];
     }
 };
 
